@@ -964,8 +964,13 @@ class Simplifier:
 
                 for (a, av), (b, bv) in itertools.permutations(((left, l), (right, r))):
                     if isinstance(a, self.LT_LTE) and isinstance(b, self.LT_LTE):
+                        if av == bv:
+                            # With equal bounds the strict comparison is the tighter of the two
+                            return a if isinstance(a, exp.LTE if or_ else exp.LT) else b
                         return left if (av > bv if or_ else av <= bv) else right
                     if isinstance(a, self.GT_GTE) and isinstance(b, self.GT_GTE):
+                        if av == bv:
+                            return a if isinstance(a, exp.GTE if or_ else exp.GT) else b
                         return left if (av < bv if or_ else av >= bv) else right
 
                     # we can't ever shortcut to true because the column could be null
